@@ -42,28 +42,36 @@ def run(cx):
     loop = loops[0]
     ch, nb, sc = [t.id for t in loop.target.elts]
     zargs = [dotted(a) for a in loop.iter.args]
-    # broadcasting of nbins/scale over the channel list
+    # what the loop iterates over, as a function of the arguments: symbolic summary of the statements before the
+    # loop (spelling-independent: if-statement or conditional expression, extra locals), compared with the summary
+    # of the documented prelude
+    from ..rules import summarise, Unsupported
     chl = zargs[0]
-    for p, z in (('nbins', zargs[1]), ('scale', zargs[2])):
-        want = sym.norm_block(ast.parse("if not isinstance(P, list):\n    P = [P]*len(CL)\n").body,
-                              {'P': ('var', p), 'CL': ('var', chl)})
-        found = [st for st in fn.stmts(ast.If) if sym.norm_block([st]) == want]
-        ok = len(found) == 1 and z == p and fn.cfg.dominates(fn.cfg.node_of(found[0]), fn.node(loop))
-        fn.ob('ONCE', 'a single %s applies to every requested channel' % p, ok, found[0] if found else loop,
-              detail='' if ok else 'no `if not isinstance(%s, list): %s = [%s]*len(%s)` before the loop' % (p, p, p, chl),
-              key='broadcast-' + p)
-    # channel list: translated channels, wrapped when not a list; default all channels
-    want = sym.norm_block(ast.parse("if not isinstance(CL, list):\n    CL = [CL]\n").body, {'CL': ('var', chl)})
-    found = [st for st in fn.stmts(ast.If) if sym.norm_block([st]) == want]
-    fn.ob('ONCE', 'a single channel is treated as a one-element list', len(found) == 1, found[0] if found else loop, key='wrap')
-    tr = [st for st in fn.stmts(ast.Assign) if sym.norm(st.value) == sym.norm('self._name_to_index(channels)')
-          and sym.norm(st.targets[0]) == ('var', 'channels')]
-    fn.ob('ONCE', 'channels are translated to positions once, in order', len(tr) == 1, tr[0] if tr else loop, key='translate')
-    dflt = [st for st in fn.stmts(ast.If) if is_none_test(st.test, 'channels')]
-    ok = len(dflt) == 1 and sym.norm_block(dflt[0].body) in (
-        sym.norm_block(ast.parse('channels = list(self._channels)').body),
-        sym.norm_block(ast.parse('channels = list(self.channels)').body))
-    fn.ob('ONCE', 'no channel given means all channels in order', ok, dflt[0] if dflt else loop, key='default-channels')
+    pre = []
+    for st in fn.ast.body:
+        if st is loop:
+            break
+        pre.append(st)
+    DOC = sym.parse_block(
+        "if channels is None:\n    channels = list(self._channels)\n"
+        "channels = self._name_to_index(channels)\n"
+        "CL = channels\n"
+        "if not isinstance(CL, list):\n    CL = [CL]\n"
+        "if not isinstance(nbins, list):\n    nbins = [nbins]*len(CL)\n"
+        "if not isinstance(scale, list):\n    scale = [scale]*len(CL)\n")
+    try:
+        got_env = summarise([s_ for s_ in pre if not (isinstance(s_, ast.Assign) and isinstance(s_.value, ast.List) and not s_.value.elts)])
+    except Unsupported as e:
+        raise AnalysisError('hist_bins: statement before the loop not understood: %s' % e)
+    want_env = summarise(DOC)
+    for what, zname, wname in (('channel list: all channels when none is given, translated to positions, a single channel wrapped into a list', zargs[0], 'CL'),
+                               ('bin counts: a single value applies to every requested channel', zargs[1], 'nbins'),
+                               ('scales: a single value applies to every requested channel', zargs[2], 'scale')):
+        g_ = got_env.get(zname)
+        ok = g_ is not None and sym.Normalizer().n(g_) == sym.Normalizer().n(want_env[wname])
+        fn.ob('ONCE', what, ok, loop, detail='' if ok else 'the loop iterates over %s' % (sym.show(sym.Normalizer().n(g_)) if g_ is not None else zname),
+              key='prelude-' + wname)
+    ch_after = got_env.get('channels')
     # one result per channel; unwrapped iff the request was not a list
     ap = appends(fn, loop)
     cx.need(len(ap) == 1, 'hist_bins: expected one accumulator in the loop, found %s' % sorted(ap))
@@ -76,12 +84,40 @@ def run(cx):
     fn.ob('ONCE', 'exactly one edge array is produced per requested channel, in order', ok, sts[0], detail=why, key='once')
     res_var = dotted(sts[0].value.args[0])
     cx.need(res_var, 'hist_bins: appended value is not a name')
-    want = sym.norm_block(ast.parse("if not isinstance(channels, list):\n    B = B[0]\n").body, {'B': ('var', acc)})
-    found = [st for st in fn.stmts(ast.If) if sym.norm_block([st]) == want]
+    # what is returned: the list itself for a list request, its only element otherwise (either as an if-statement
+    # before one return or as two returns)
+    tail = []
+    seen_loop = False
+    for st in fn.ast.body:
+        if seen_loop:
+            tail.append(st)
+        if st is loop:
+            seen_loop = True
+
+    def returned(stmts):
+        env_ = {}
+        for i_, st in enumerate(stmts):
+            if isinstance(st, ast.Return):
+                from ..rules import _subst_env
+                return _subst_env(st.value, env_) if st.value is not None else ast.Constant(value=None)
+            if isinstance(st, ast.If) and st.body and isinstance(st.body[-1], ast.Return) and not st.orelse:
+                a_ = returned(st.body)
+                b_ = returned(stmts[i_ + 1:])
+                if a_ is None or b_ is None:
+                    return None
+                from ..rules import _subst_env
+                return ast.IfExp(test=_subst_env(st.test, env_), body=a_, orelse=b_)
+            try:
+                env_ = summarise([st], env_)
+            except Unsupported:
+                return None
+        return None
+    r_ = returned(tail)
+    want_r = ast.parse('%s if isinstance(channels, list) else %s[0]' % (acc, acc), mode='eval').body
+    ok = r_ is not None and sym.Normalizer().n(r_) == sym.Normalizer().n(want_r)
     rets = fn.stmts(ast.Return)
-    ok = len(found) == 1 and len(rets) == 1 and sym.norm(rets[0].value) == ('var', acc)
-    fn.ob('ONCE', 'the list is unwrapped exactly when a single channel was asked for', ok, found[0] if found else rets[0],
-          key='unwrap')
+    fn.ob('ONCE', 'the list is unwrapped exactly when a single channel was asked for', ok, rets[0] if rets else loop,
+          detail='' if ok else 'returned value is %s' % (sym.show(sym.Normalizer().n(r_)) if r_ is not None else 'not understood'), key='unwrap')
     # per-channel inputs
     pre = {}
     for st in fn.stmts(ast.Assign, loop):
